@@ -1,0 +1,287 @@
+//go:build verif
+
+// Contracts for pictures (property C10, image part of C02), read by /verif/engine (govc).
+// Comments only: with or without the build tag this file adds no code to the package.
+package document
+
+// ---- extent computation ---------------------------------------------------------------------------------
+// Sizing rules of C10 (EMU: 36000 per millimetre, 9525 per pixel at 96 dpi). int64(x) truncates.
+//@ spec szCfg(ii *ImageInfo) bool = ii.Config != nil && ii.Config.Size != nil
+//@ spec szBoth(ii *ImageInfo) bool = szCfg(ii) && ii.Config.Size.Width > 0 && ii.Config.Size.Height > 0
+//@ spec szByW(ii *ImageInfo) bool = szCfg(ii) && !szBoth(ii) && ii.Config.Size.Width > 0 && ii.Config.Size.KeepAspectRatio
+//@ spec szByH(ii *ImageInfo) bool = szCfg(ii) && !szBoth(ii) && !szByW(ii) && ii.Config.Size.Height > 0 && ii.Config.Size.KeepAspectRatio
+
+// sizeRule(ii, w, h): (w, h) is the extent in EMU the sizing rules give for picture ii:
+//  - width and height requested: both from the request, millimetres * 36000 (truncated);
+//  - one dimension requested with KeepAspectRatio: that one from the request, the other is
+//    floor(requested * other pixels / this pixels) — stated as the two inequalities of an exact integer quotient —
+//    or, when the pixel size it would be divided by is 0, the pixel size at 96 dpi;
+//  - otherwise: pixels * 9525 (96 dpi);
+//  and no extent is negative for a non-negative pixel size.
+//@ spec sizeRule(ii *ImageInfo, w int, h int) bool = (szBoth(ii) ==> w == trunc(ii.Config.Size.Width * 36000) && h == trunc(ii.Config.Size.Height * 36000))
+//@+ && (!szBoth(ii) && !szByW(ii) && !szByH(ii) ==> w == ii.Width * 9525 && h == ii.Height * 9525)
+//@+ && (szByW(ii) ==> w == trunc(ii.Config.Size.Width * 36000))
+//@+ && (szByW(ii) && ii.Width > 0 && ii.Height >= 0 ==> h * ii.Width <= w * ii.Height && w * ii.Height < (h + 1) * ii.Width)
+//@+ && (szByW(ii) && ii.Width <= 0 ==> h == ii.Height * 9525)
+//@+ && (szByH(ii) ==> h == trunc(ii.Config.Size.Height * 36000))
+//@+ && (szByH(ii) && ii.Height > 0 && ii.Width >= 0 ==> w * ii.Height <= h * ii.Width && h * ii.Width < (w + 1) * ii.Height)
+//@+ && (szByH(ii) && ii.Height <= 0 ==> w == ii.Width * 9525)
+//@+ && (ii.Width >= 0 && ii.Height >= 0 ==> w >= 0 && h >= 0)
+
+// No division by zero (safety:div0 on both float divisions) for zero-sized pictures.
+//@ func (*Document).calculateDisplaySize
+//@ props C10
+//@ requires imageInfo != nil
+//@ modifies nothing
+//@ ensures sizeRule(imageInfo, result0, result1)
+
+// ---- media part names -------------------------------------------------------------------------------------
+// ctExt: the extension registered in [Content_Types].xml for a format; fmtExt: the extension of the media part.
+//@ spec knownFmt(f ImageFormat) bool = f == ImageFormatPNG || f == ImageFormatJPEG || f == ImageFormatGIF
+//@ spec ctExt(f ImageFormat) string = ite(f == ImageFormatJPEG, "jpeg", ite(f == ImageFormatGIF, "gif", "png"))
+//@ spec fmtExt(f ImageFormat) string = "." + ctExt(f)
+// imgFile / imgPart: name of the n-th media part ("word/media/image<n><ext>"); the relationship target is "media/" + imgFile.
+//@ spec imgFile(n int, e string) string = "image" + (itoa(n) + e)
+//@ spec imgPart(n int, e string) string = "word/media/" + imgFile(n, e)
+//@ spec dotExt(e string) bool = len(e) >= 1 && e[0] == 46
+// mediaFresh: no part is named word/media/image<m>.<anything> for an m at or above the counter — the data invariant
+// that makes the next name new. New() establishes it (no parts), updateNextImageID establishes it on open,
+// AddImageFromData* preserve it.
+//@ spec mediaFresh(d *Document) bool = forall m int, e string :: {"word/media/" + ("image" + (itoa(m) + e))} m >= d.nextImageID && dotExt(e) ==> !has(d.parts, imgPart(m, e))
+
+// The part name is built from the counter and the extension of the FORMAT (the one that gets a content type),
+// never from the caller's file name.
+//@ func generateSafeImageFileName
+//@ props C10
+//@ modifies nothing
+//@ ensures result == imgFile(imageID, fmtExt(format))
+
+// ---- content type -----------------------------------------------------------------------------------------
+//@ spec ctHasDefault(ds []Default, ext string) bool = exists j int :: {ds[j]} 0 <= j && j < len(ds) && ds[j].Extension == ext
+
+// For each of the three formats a Default entry for the extension of the media part exists afterwards
+// (fmtExt(format) == "." + ctExt(format)); entries that existed stay where they were, at most one is appended.
+//@ func (*Document).addImageContentType
+//@ props C10
+//@ requires d != nil
+//@ ensures d.contentTypes != nil && (old(d.contentTypes) != nil ==> d.contentTypes == old(d.contentTypes))
+//@ ensures knownFmt(format) ==> ctHasDefault(d.contentTypes.Defaults, ctExt(format))
+//@ ensures old(d.contentTypes) != nil ==> len(d.contentTypes.Defaults) >= old(len(d.contentTypes.Defaults)) && len(d.contentTypes.Defaults) <= old(len(d.contentTypes.Defaults)) + 1
+//@ ensures old(d.contentTypes) != nil ==> forall j int :: 0 <= j && j < old(len(d.contentTypes.Defaults)) ==> d.contentTypes.Defaults[j] == old(d.contentTypes.Defaults[j])
+//@ ensures old(d.contentTypes) != nil && len(d.contentTypes.Defaults) == old(len(d.contentTypes.Defaults)) + 1 ==> d.contentTypes.Defaults[old(len(d.contentTypes.Defaults))].Extension == ctExt(format) && d.contentTypes.Defaults[old(len(d.contentTypes.Defaults))].ContentType == "image/" + ctExt(format) && !old(ctHasDefault(d.contentTypes.Defaults, ctExt(format)))
+//@ modifies Document.contentTypes, ContentTypes.Defaults, []Default
+//@ loop 1
+//@   invariant 0 <= #i && #i <= len(d.contentTypes.Defaults) && unchangedExcept("Document.contentTypes") && d.contentTypes != nil
+//@   invariant forall j int :: 0 <= j && j < #i ==> d.contentTypes.Defaults[j].Extension != extension
+//@   decreases len(d.contentTypes.Defaults) - #i
+
+// ---- the drawing placed in the document ---------------------------------------------------------------------
+// graphicIs(g, rid, cx, cy): the a:graphic tree is complete, its a:blip embeds relationship id rid and its a:ext is (cx, cy).
+//@ spec graphicIs(g *DrawingGraphic, rid string, cx string, cy string) bool = g != nil && g.GraphicData != nil && g.GraphicData.Pic != nil && g.GraphicData.Pic.BlipFill != nil && g.GraphicData.Pic.BlipFill.Blip != nil && g.GraphicData.Pic.SpPr != nil && g.GraphicData.Pic.SpPr.Xfrm != nil && g.GraphicData.Pic.SpPr.Xfrm.Ext != nil
+//@+ && g.GraphicData.Pic.BlipFill.Blip.Embed == rid && g.GraphicData.Pic.SpPr.Xfrm.Ext.Cx == cx && g.GraphicData.Pic.SpPr.Xfrm.Ext.Cy == cy
+// drawingIs(dr, rid, pid, cx, cy): dr is exactly one of inline / anchor, with wp:extent (cx, cy), wp:docPr id pid and a graphic as above.
+//@ spec inlineIs(x *InlineDrawing, rid string, pid string, cx string, cy string) bool = x != nil && x.Extent != nil && x.Extent.Cx == cx && x.Extent.Cy == cy && x.DocPr != nil && x.DocPr.ID == pid && graphicIs(x.Graphic, rid, cx, cy)
+//@ spec anchorIs(x *AnchorDrawing, rid string, pid string, cx string, cy string) bool = x != nil && x.Extent != nil && x.Extent.Cx == cx && x.Extent.Cy == cy && x.DocPr != nil && x.DocPr.ID == pid && graphicIs(x.Graphic, rid, cx, cy)
+//@ spec drawingIs(dr *DrawingElement, rid string, pid string, cx string, cy string) bool = dr != nil && ((dr.Anchor == nil && inlineIs(dr.Inline, rid, pid, cx, cy)) || (dr.Inline == nil && anchorIs(dr.Anchor, rid, pid, cx, cy)))
+
+//@ func (*Document).createImageGraphic
+//@ props C10, C02
+//@ requires imageInfo != nil
+//@ modifies nothing
+//@ ensures fresh(result) && graphicIs(result, imageInfo.RelationID, itoa(displayWidth), itoa(displayHeight))
+
+//@ func (*Document).createInlineImageDrawing
+//@ props C10, C02
+//@ requires imageInfo != nil
+//@ modifies nothing
+//@ ensures fresh(result) && result.Anchor == nil && inlineIs(result.Inline, imageInfo.RelationID, imageInfo.ID, itoa(displayWidth), itoa(displayHeight))
+
+//@ func (*Document).createFloatingImageDrawing
+//@ props C10, C02
+//@ requires imageInfo != nil && imageInfo.Config != nil
+//@ modifies nothing
+//@ ensures fresh(result) && result.Inline == nil && anchorIs(result.Anchor, imageInfo.RelationID, imageInfo.ID, itoa(displayWidth), itoa(displayHeight))
+
+// The paragraph holds one run whose drawing embeds the picture's relationship id, with the extent of the sizing rules
+// in wp:extent and a:ext.
+//@ func (*Document).createImageParagraph
+//@ props C10, C02
+//@ requires imageInfo != nil
+//@ modifies nothing
+//@ ensures fresh(result) && len(result.Runs) == 1
+//@ ensures exists w int, h int :: {itoa(w), itoa(h)} sizeRule(imageInfo, w, h) && drawingIs(result.Runs[0].Drawing, imageInfo.RelationID, imageInfo.ID, itoa(w), itoa(h))
+
+// ---- adding a picture ---------------------------------------------------------------------------------------
+//@ spec imageRelType() string = "http://schemas.openxmlformats.org/officeDocument/2006/relationships/image"
+
+// What one successful addition leaves in the package, relative to the state before (old counter n): the part
+// word/media/image<n><ext> is NEW and holds exactly the slice given, every other part is untouched; one relationship is
+// appended (an id no earlier relationship has, never rId1, image type, target = that part relative to word/), the
+// earlier ones are untouched, so pairwise different ids stay pairwise different; the counter moved to n+1 and stays
+// above every media number in use; the extension of the part has a content type.
+//@ spec docRelIDsUnique(rs []Relationship) bool = forall i int, j int :: 0 <= i && i < j && j < len(rs) ==> rs[i].ID != rs[j].ID
+
+// AddImageFromDataWithoutElement: the allocator shared by the body, table-cell and template paths.
+//@ func (*Document).AddImageFromDataWithoutElement
+//@ props C10, C02
+//@ requires docParts(d) && mediaFresh(d)
+//@ ensures err == nil && fresh(result0) && docParts(d)
+//@ ensures d.nextImageID == old(d.nextImageID) + 1
+//@ ensures mediaFresh(d)
+//@ ensures d.parts == old(d.parts)
+//@ ensures !old(has(d.parts, imgPart(d.nextImageID, fmtExt(format))))
+//@ ensures has(d.parts, imgPart(old(d.nextImageID), fmtExt(format))) && d.parts[imgPart(old(d.nextImageID), fmtExt(format))] == imageData
+//@ ensures forall k string :: k != imgPart(old(d.nextImageID), fmtExt(format)) ==> has(d.parts, k) == old(has(d.parts, k)) && d.parts[k] == old(d.parts[k])
+//@ ensures d.documentRelationships == old(d.documentRelationships) && len(d.documentRelationships.Relationships) == old(len(d.documentRelationships.Relationships)) + 1
+//@ ensures forall j int :: 0 <= j && j < old(len(d.documentRelationships.Relationships)) ==> d.documentRelationships.Relationships[j] == old(d.documentRelationships.Relationships[j])
+//@ ensures forall j int :: {old(d.documentRelationships.Relationships[j])} 0 <= j && j < old(len(d.documentRelationships.Relationships)) ==> old(d.documentRelationships.Relationships[j].ID) != result0.RelationID
+//@ ensures result0.RelationID != "rId1"
+//@ ensures old(docRelIDsUnique(d.documentRelationships.Relationships)) ==> docRelIDsUnique(d.documentRelationships.Relationships)
+//@ ensures d.documentRelationships.Relationships[old(len(d.documentRelationships.Relationships))].ID == result0.RelationID
+//@ ensures d.documentRelationships.Relationships[old(len(d.documentRelationships.Relationships))].Type == imageRelType()
+//@ ensures d.documentRelationships.Relationships[old(len(d.documentRelationships.Relationships))].Target == "media/" + imgFile(old(d.nextImageID), fmtExt(format))
+//@ ensures knownFmt(format) ==> ctHasDefault(d.contentTypes.Defaults, ctExt(format))
+//@ ensures result0.ID == itoa(old(d.nextImageID)) && result0.Format == format && result0.Width == width && result0.Height == height && result0.Data == imageData && result0.Config == config
+//@ modifies Document.nextImageID, map:string:[]byte, Relationships.Relationships, []Relationship, Document.contentTypes, ContentTypes.Defaults, []Default
+
+// AddImageFromData (body path, also the data path of AddImageFromFile): the same allocation (pairwise different ids stay
+// pairwise different by the three relationship clauses: earlier entries unchanged, one appended, its id unlike any
+// earlier one — the closed form docRelIDsUnique is only stated for the allocator above), and the paragraph appended
+// to the body holds a drawing that embeds exactly the new relationship id, sized by the sizing rules; every earlier
+// body element, part and relationship stays as it was.
+//@ func (*Document).AddImageFromData
+//@ props C10, C02
+//@ requires docParts(d) && mediaFresh(d)
+//@ ensures err == nil && fresh(result0) && docParts(d)
+//@ ensures d.nextImageID == old(d.nextImageID) + 1
+//@ ensures mediaFresh(d)
+//@ ensures d.parts == old(d.parts)
+//@ ensures !old(has(d.parts, imgPart(d.nextImageID, fmtExt(format))))
+//@ ensures has(d.parts, imgPart(old(d.nextImageID), fmtExt(format))) && d.parts[imgPart(old(d.nextImageID), fmtExt(format))] == imageData
+//@ ensures forall k string :: k != imgPart(old(d.nextImageID), fmtExt(format)) ==> has(d.parts, k) == old(has(d.parts, k)) && d.parts[k] == old(d.parts[k])
+//@ ensures d.documentRelationships == old(d.documentRelationships) && len(d.documentRelationships.Relationships) == old(len(d.documentRelationships.Relationships)) + 1
+//@ ensures forall j int :: 0 <= j && j < old(len(d.documentRelationships.Relationships)) ==> d.documentRelationships.Relationships[j] == old(d.documentRelationships.Relationships[j])
+//@ ensures forall j int :: {old(d.documentRelationships.Relationships[j])} 0 <= j && j < old(len(d.documentRelationships.Relationships)) ==> old(d.documentRelationships.Relationships[j].ID) != result0.RelationID
+//@ ensures result0.RelationID != "rId1"
+//@ ensures d.documentRelationships.Relationships[old(len(d.documentRelationships.Relationships))].ID == result0.RelationID
+//@ ensures d.documentRelationships.Relationships[old(len(d.documentRelationships.Relationships))].Type == imageRelType()
+//@ ensures d.documentRelationships.Relationships[old(len(d.documentRelationships.Relationships))].Target == "media/" + imgFile(old(d.nextImageID), fmtExt(format))
+//@ ensures knownFmt(format) ==> ctHasDefault(d.contentTypes.Defaults, ctExt(format))
+//@ ensures result0.ID == itoa(old(d.nextImageID)) && result0.Format == format && result0.Width == width && result0.Height == height && result0.Data == imageData && result0.Config == config
+//@ ensures d.Body == old(d.Body) && len(d.Body.Elements) == old(len(d.Body.Elements)) + 1
+//@ ensures forall j int :: 0 <= j && j < old(len(d.Body.Elements)) ==> d.Body.Elements[j] == old(d.Body.Elements[j])
+//@ ensures typeIs(d.Body.Elements[old(len(d.Body.Elements))], "*Paragraph") && fresh(d.Body.Elements[old(len(d.Body.Elements))].(*Paragraph)) && len(d.Body.Elements[old(len(d.Body.Elements))].(*Paragraph).Runs) == 1
+//@ ensures exists w int, h int :: {itoa(w), itoa(h)} sizeRule(result0, w, h) && drawingIs(d.Body.Elements[old(len(d.Body.Elements))].(*Paragraph).Runs[0].Drawing, result0.RelationID, result0.ID, itoa(w), itoa(h))
+//@ modifies Document.nextImageID, map:string:[]byte, Relationships.Relationships, []Relationship, Document.contentTypes, ContentTypes.Defaults, []Default, Body.Elements, cell:any
+
+// AddImageFromFile: reading and decoding are external calls (os.ReadFile, image/{png,jpeg,gif}.Decode: results
+// unconstrained, decoders return a non-nil image on success); whatever bytes were read (result0.Data) are the bytes of
+// the new part. A failure changes nothing.
+//@ func (*Document).AddImageFromFile
+//@ props C10, C02
+//@ requires docParts(d) && mediaFresh(d)
+//@ ensures err != nil ==> result0 == nil && unchangedHeap()
+//@ ensures err == nil ==> fresh(result0) && docParts(d) && knownFmt(result0.Format) && result0.Config == config
+//@ ensures err == nil ==> d.nextImageID == old(d.nextImageID) + 1 && mediaFresh(d)
+//@ ensures err == nil ==> d.parts == old(d.parts) && !old(has(d.parts, imgPart(d.nextImageID, fmtExt(result0.Format)))) && has(d.parts, imgPart(old(d.nextImageID), fmtExt(result0.Format))) && d.parts[imgPart(old(d.nextImageID), fmtExt(result0.Format))] == result0.Data
+//@ ensures err == nil ==> forall k string :: k != imgPart(old(d.nextImageID), fmtExt(result0.Format)) ==> has(d.parts, k) == old(has(d.parts, k)) && d.parts[k] == old(d.parts[k])
+//@ ensures err == nil ==> d.documentRelationships == old(d.documentRelationships) && len(d.documentRelationships.Relationships) == old(len(d.documentRelationships.Relationships)) + 1 && d.documentRelationships.Relationships[old(len(d.documentRelationships.Relationships))].ID == result0.RelationID && d.documentRelationships.Relationships[old(len(d.documentRelationships.Relationships))].Type == imageRelType() && d.documentRelationships.Relationships[old(len(d.documentRelationships.Relationships))].Target == "media/" + imgFile(old(d.nextImageID), fmtExt(result0.Format))
+//@ ensures err == nil ==> forall j int :: 0 <= j && j < old(len(d.documentRelationships.Relationships)) ==> d.documentRelationships.Relationships[j] == old(d.documentRelationships.Relationships[j])
+//@ ensures err == nil ==> forall j int :: {old(d.documentRelationships.Relationships[j])} 0 <= j && j < old(len(d.documentRelationships.Relationships)) ==> old(d.documentRelationships.Relationships[j].ID) != result0.RelationID
+//@ ensures err == nil && knownFmt(result0.Format) ==> ctHasDefault(d.contentTypes.Defaults, ctExt(result0.Format))
+//@ ensures err == nil ==> d.Body == old(d.Body) && len(d.Body.Elements) == old(len(d.Body.Elements)) + 1 && typeIs(d.Body.Elements[old(len(d.Body.Elements))], "*Paragraph") && fresh(d.Body.Elements[old(len(d.Body.Elements))].(*Paragraph)) && len(d.Body.Elements[old(len(d.Body.Elements))].(*Paragraph).Runs) == 1
+//@ ensures err == nil ==> forall j int :: 0 <= j && j < old(len(d.Body.Elements)) ==> d.Body.Elements[j] == old(d.Body.Elements[j])
+//@ ensures err == nil ==> exists w int, h int :: {itoa(w), itoa(h)} sizeRule(result0, w, h) && drawingIs(d.Body.Elements[old(len(d.Body.Elements))].(*Paragraph).Runs[0].Drawing, result0.RelationID, result0.ID, itoa(w), itoa(h))
+//@ modifies Document.nextImageID, map:string:[]byte, Relationships.Relationships, []Relationship, Document.contentTypes, ContentTypes.Defaults, []Default, Body.Elements, cell:any
+
+// AddCellImage (table-cell path; AddCellImageFromFile/FromData are one-line wrappers): the same allocator; with
+// config.Data the part holds exactly config.Data; the picture's paragraph is appended to the addressed cell and embeds
+// the new relationship id; the requested size reaches the sizing rules unchanged; the body is not touched; a failure
+// (bad cell, unreadable/undecodable image, nothing given) changes nothing.
+//@ func (*Document).AddCellImage
+//@ props C10, C02
+//@ requires docParts(d) && mediaFresh(d) && config != nil
+//@ ensures err != nil ==> result0 == nil && unchangedHeap()
+//@ ensures err == nil ==> table != nil && 0 <= row && row < len(table.Rows) && 0 <= col && col < len(table.Rows[row].Cells) && fresh(result0) && docParts(d) && knownFmt(result0.Format)
+//@ ensures err == nil && old(config.FilePath) == "" ==> result0.Data == old(config.Data) && (old(config.Format) != "" ==> result0.Format == old(config.Format))
+//@ ensures err == nil ==> fresh(result0.Config) && result0.Config.Position == ImagePositionInline && ((old(config.Width) > 0 || old(config.Height) > 0) ==> result0.Config.Size != nil && result0.Config.Size.Width == old(config.Width) && result0.Config.Size.Height == old(config.Height) && result0.Config.Size.KeepAspectRatio == old(config.KeepAspectRatio)) && (!(old(config.Width) > 0 || old(config.Height) > 0) ==> result0.Config.Size == nil)
+//@ ensures err == nil ==> d.nextImageID == old(d.nextImageID) + 1 && mediaFresh(d)
+//@ ensures err == nil ==> d.parts == old(d.parts) && !old(has(d.parts, imgPart(d.nextImageID, fmtExt(result0.Format)))) && has(d.parts, imgPart(old(d.nextImageID), fmtExt(result0.Format))) && d.parts[imgPart(old(d.nextImageID), fmtExt(result0.Format))] == result0.Data
+//@ ensures err == nil ==> forall k string :: k != imgPart(old(d.nextImageID), fmtExt(result0.Format)) ==> has(d.parts, k) == old(has(d.parts, k)) && d.parts[k] == old(d.parts[k])
+//@ ensures err == nil ==> d.documentRelationships == old(d.documentRelationships) && len(d.documentRelationships.Relationships) == old(len(d.documentRelationships.Relationships)) + 1 && d.documentRelationships.Relationships[old(len(d.documentRelationships.Relationships))].ID == result0.RelationID && d.documentRelationships.Relationships[old(len(d.documentRelationships.Relationships))].Type == imageRelType() && d.documentRelationships.Relationships[old(len(d.documentRelationships.Relationships))].Target == "media/" + imgFile(old(d.nextImageID), fmtExt(result0.Format))
+//@ ensures err == nil ==> forall j int :: 0 <= j && j < old(len(d.documentRelationships.Relationships)) ==> d.documentRelationships.Relationships[j] == old(d.documentRelationships.Relationships[j])
+//@ ensures err == nil ==> forall j int :: {old(d.documentRelationships.Relationships[j])} 0 <= j && j < old(len(d.documentRelationships.Relationships)) ==> old(d.documentRelationships.Relationships[j].ID) != result0.RelationID
+//@ ensures err == nil && knownFmt(result0.Format) ==> ctHasDefault(d.contentTypes.Defaults, ctExt(result0.Format))
+//@ ensures err == nil ==> len(table.Rows[row].Cells[col].Paragraphs) == old(len(table.Rows[row].Cells[col].Paragraphs)) + 1 && len(table.Rows[row].Cells[col].Paragraphs[old(len(table.Rows[row].Cells[col].Paragraphs))].Runs) == 1
+//@ ensures err == nil ==> forall j int :: 0 <= j && j < old(len(table.Rows[row].Cells[col].Paragraphs)) ==> table.Rows[row].Cells[col].Paragraphs[j] == old(table.Rows[row].Cells[col].Paragraphs[j])
+//@ ensures err == nil ==> exists w int, h int :: {itoa(w), itoa(h)} sizeRule(result0, w, h) && drawingIs(table.Rows[row].Cells[col].Paragraphs[old(len(table.Rows[row].Cells[col].Paragraphs))].Runs[0].Drawing, result0.RelationID, result0.ID, itoa(w), itoa(h))
+//@ modifies Document.nextImageID, map:string:[]byte, Relationships.Relationships, []Relationship, Document.contentTypes, ContentTypes.Defaults, []Default, TableCell.Paragraphs, Paragraph.*
+
+// The description setters used by the template path only touch the picture's own configuration object (created on
+// demand); they never reach the package parts, the relationships or the counter.
+//@ func (*Document).SetImageAltText
+//@ props C10
+//@ modifies ImageInfo.Config, ImageConfig.AltText
+//@ ensures (result == nil) == (imageInfo != nil)
+//@ ensures imageInfo != nil ==> imageInfo.Config != nil && imageInfo.Config.AltText == altText && (old(imageInfo.Config) != nil ==> imageInfo.Config == old(imageInfo.Config)) && (old(imageInfo.Config) == nil ==> fresh(imageInfo.Config))
+//@ ensures forall ii *ImageInfo :: {ii.Config} ii != imageInfo ==> ii.Config == old(ii.Config)
+//@ ensures forall c *ImageConfig :: {c.AltText} allocated(c) && (imageInfo == nil || c != old(imageInfo.Config)) ==> c.AltText == old(c.AltText)
+
+//@ func (*Document).SetImageTitle
+//@ props C10
+//@ modifies ImageInfo.Config, ImageConfig.Title
+//@ ensures (result == nil) == (imageInfo != nil)
+//@ ensures imageInfo != nil ==> imageInfo.Config != nil && imageInfo.Config.Title == title && (old(imageInfo.Config) != nil ==> imageInfo.Config == old(imageInfo.Config)) && (old(imageInfo.Config) == nil ==> fresh(imageInfo.Config))
+//@ ensures forall ii *ImageInfo :: {ii.Config} ii != imageInfo ==> ii.Config == old(ii.Config)
+//@ ensures forall c *ImageConfig :: {c.Title} allocated(c) && (imageInfo == nil || c != old(imageInfo.Config)) ==> c.Title == old(c.Title)
+
+// Template placeholder path ({{#image name}}): the same allocator; the picture's paragraph is returned to the renderer
+// (not appended to the body here) and embeds the relationship appended last; with imageData.Data the new part holds
+// exactly imageData.Data. The image format is detected from the bytes, so the part's extension e is one of the three;
+// the relationship target T is "media/image<n><e>" for one of them, and the part is named "word/" + T, written
+// "word/media/" + T[6:] (T[6:] is T without "media/"). Every success clause is stated once per source (bytes given /
+// file path given): under the branch condition the solver does not have to split the merged state of the two calls of
+// the allocator. The content-type registration on this path is the allocator's own postcondition (the format passed is
+// the one detectImageFormat returned); it is not restated here — naming the format through the target made the
+// obligation take 6-7 s.
+// A failure changes nothing.
+//@ func (*TemplateEngine).createImageParagraph
+//@ props C10, C02
+//@ requires docParts(doc) && mediaFresh(doc) && imageData != nil
+//@ ensures err != nil ==> result0 == nil && unchangedHeap()
+//@ ensures err == nil ==> fresh(result0) && len(result0.Runs) == 1 && docParts(doc) && doc.Body == old(doc.Body) && len(doc.Body.Elements) == old(len(doc.Body.Elements))
+//@ ensures err == nil ==> (old(len(imageData.Data)) > 0 ==> (doc.nextImageID == old(doc.nextImageID) + 1 && mediaFresh(doc))) && (old(len(imageData.Data)) == 0 ==> (doc.nextImageID == old(doc.nextImageID) + 1 && mediaFresh(doc)))
+//@ ensures err == nil ==> (old(len(imageData.Data)) > 0 ==> (doc.parts == old(doc.parts) && doc.documentRelationships == old(doc.documentRelationships) && len(doc.documentRelationships.Relationships) == old(len(doc.documentRelationships.Relationships)) + 1 && doc.documentRelationships.Relationships[old(len(doc.documentRelationships.Relationships))].Type == imageRelType())) && (old(len(imageData.Data)) == 0 ==> (doc.parts == old(doc.parts) && doc.documentRelationships == old(doc.documentRelationships) && len(doc.documentRelationships.Relationships) == old(len(doc.documentRelationships.Relationships)) + 1 && doc.documentRelationships.Relationships[old(len(doc.documentRelationships.Relationships))].Type == imageRelType()))
+//@ ensures err == nil ==> (old(len(imageData.Data)) > 0 ==> (doc.documentRelationships.Relationships[old(len(doc.documentRelationships.Relationships))].Target == "media/" + imgFile(old(doc.nextImageID), ".png") || doc.documentRelationships.Relationships[old(len(doc.documentRelationships.Relationships))].Target == "media/" + imgFile(old(doc.nextImageID), ".jpeg") || doc.documentRelationships.Relationships[old(len(doc.documentRelationships.Relationships))].Target == "media/" + imgFile(old(doc.nextImageID), ".gif"))) && (old(len(imageData.Data)) == 0 ==> (doc.documentRelationships.Relationships[old(len(doc.documentRelationships.Relationships))].Target == "media/" + imgFile(old(doc.nextImageID), ".png") || doc.documentRelationships.Relationships[old(len(doc.documentRelationships.Relationships))].Target == "media/" + imgFile(old(doc.nextImageID), ".jpeg") || doc.documentRelationships.Relationships[old(len(doc.documentRelationships.Relationships))].Target == "media/" + imgFile(old(doc.nextImageID), ".gif")))
+//@ ensures err == nil ==> (old(len(imageData.Data)) > 0 ==> (forall e string :: doc.documentRelationships.Relationships[old(len(doc.documentRelationships.Relationships))].Target == "media/" + imgFile(old(doc.nextImageID), e) ==> !old(has(doc.parts, imgPart(doc.nextImageID, e))) && has(doc.parts, imgPart(old(doc.nextImageID), e)) && (old(len(imageData.Data)) > 0 ==> doc.parts[imgPart(old(doc.nextImageID), e)] == old(imageData.Data)))) && (old(len(imageData.Data)) == 0 ==> (forall e string :: doc.documentRelationships.Relationships[old(len(doc.documentRelationships.Relationships))].Target == "media/" + imgFile(old(doc.nextImageID), e) ==> !old(has(doc.parts, imgPart(doc.nextImageID, e))) && has(doc.parts, imgPart(old(doc.nextImageID), e)) && (old(len(imageData.Data)) > 0 ==> doc.parts[imgPart(old(doc.nextImageID), e)] == old(imageData.Data))))
+//@ ensures err == nil ==> (old(len(imageData.Data)) > 0 ==> (forall k string :: k != "word/media/" + doc.documentRelationships.Relationships[old(len(doc.documentRelationships.Relationships))].Target[6:] ==> has(doc.parts, k) == old(has(doc.parts, k)) && doc.parts[k] == old(doc.parts[k]))) && (old(len(imageData.Data)) == 0 ==> (forall k string :: k != "word/media/" + doc.documentRelationships.Relationships[old(len(doc.documentRelationships.Relationships))].Target[6:] ==> has(doc.parts, k) == old(has(doc.parts, k)) && doc.parts[k] == old(doc.parts[k])))
+//@ ensures err == nil ==> (old(len(imageData.Data)) > 0 ==> (forall j int :: 0 <= j && j < old(len(doc.documentRelationships.Relationships)) ==> doc.documentRelationships.Relationships[j] == old(doc.documentRelationships.Relationships[j]))) && (old(len(imageData.Data)) == 0 ==> (forall j int :: 0 <= j && j < old(len(doc.documentRelationships.Relationships)) ==> doc.documentRelationships.Relationships[j] == old(doc.documentRelationships.Relationships[j])))
+//@ ensures err == nil ==> (old(len(imageData.Data)) > 0 ==> (forall j int :: {old(doc.documentRelationships.Relationships[j])} 0 <= j && j < old(len(doc.documentRelationships.Relationships)) ==> old(doc.documentRelationships.Relationships[j].ID) != doc.documentRelationships.Relationships[old(len(doc.documentRelationships.Relationships))].ID)) && (old(len(imageData.Data)) == 0 ==> (forall j int :: {old(doc.documentRelationships.Relationships[j])} 0 <= j && j < old(len(doc.documentRelationships.Relationships)) ==> old(doc.documentRelationships.Relationships[j].ID) != doc.documentRelationships.Relationships[old(len(doc.documentRelationships.Relationships))].ID))
+//@ ensures err == nil ==> (old(len(imageData.Data)) > 0 ==> (exists cx string, cy string :: {len(cx), len(cy)} drawingIs(result0.Runs[0].Drawing, doc.documentRelationships.Relationships[old(len(doc.documentRelationships.Relationships))].ID, itoa(old(doc.nextImageID)), cx, cy))) && (old(len(imageData.Data)) == 0 ==> (exists cx string, cy string :: {len(cx), len(cy)} drawingIs(result0.Runs[0].Drawing, doc.documentRelationships.Relationships[old(len(doc.documentRelationships.Relationships))].ID, itoa(old(doc.nextImageID)), cx, cy)))
+//@ modifies Document.nextImageID, map:string:[]byte, Relationships.Relationships, []Relationship, Document.contentTypes, ContentTypes.Defaults, []Default, ImageInfo.Config, ImageConfig.AltText, ImageConfig.Title
+
+// ---- constructors establish the data invariants ---------------------------------------------------------------
+// New(): the containers exist (docParts), the counter is 0 and no part has a media name — the package parts written
+// by initializeStructure have literal names outside word/media/.
+// (the contract of New is in zz_contracts_verif_tplclone.go: one contract per function; it carries the two C10 clauses)
+
+// Rendering a template copies the package parts (pictures included) into the new document: no part name appears that
+// neither document had (so mediaFresh carries over together with the copied counter), and every copied part has the
+// bytes of the source part in an array of its own.
+// (cloneAllDocumentParts is under contract in zz_contracts_verif_tplclone.go: one contract per function)
+
+// ---- saving ---------------------------------------------------------------------------------------------------
+// serializeDocumentRelationships rewrites only the relationship part: every media part (and every other part) keeps
+// its bytes, no media name appears. (That the ids written are pairwise different — styles gets rId1 only if the list
+// does not use it — is not observable here: the list goes to xml.MarshalIndent, whose output is unconstrained.)
+//@ func (*Document).serializeDocumentRelationships
+//@ props C10, C02, C05, C04, C01
+//@ requires d != nil && d.parts != nil && d.documentRelationships != nil
+//@ modifies map:string:[]byte
+//@ ensures has(d.parts, "word/_rels/document.xml.rels")
+//@ ensures forall k string :: k != "word/_rels/document.xml.rels" ==> has(d.parts, k) == old(has(d.parts, k)) && d.parts[k] == old(d.parts[k])
+//@ ensures forall m map[string][]byte, k string :: m != d.parts ==> (has(m, k) <==> old(has(m, k))) && m[k] == old(m[k])
+//@ ensures freshArr(d.parts["word/_rels/document.xml.rels"])
+//@ loop 1
+//@   invariant 0 <= #i && #i <= len(d.documentRelationships.Relationships) && unchangedHeap()
+//@   decreases len(d.documentRelationships.Relationships) - #i
